@@ -239,7 +239,12 @@ func (fg *FG) block(b *ssa.BasicBlock, pkg *types.Package) {
 					fg.vals[phi] = phiIn[phi]
 				}
 			}
+			if fg.loopEntrySt == nil {
+				fg.loopEntrySt = map[int]*State{}
+			}
+			fg.loopEntrySt[b.Index] = st.clone()
 			env := fg.envAt(st, pkg, fg.localResolver(b, st))
+			env.loopEntry = fg.loopEntrySt[b.Index]
 			for k, inv := range invs {
 				t := env.tr(inv.E)
 				fg.oblig("inv-init", fmt.Sprintf("inv-init:loop%d#%s", ord, clauseName(inv, k)), inv.Tag, r, t.T, inv.Src, fmt.Sprintf("%s:%d", inv.File, inv.Line))
@@ -256,6 +261,7 @@ func (fg *FG) block(b *ssa.BasicBlock, pkg *types.Package) {
 				}
 			}
 			env = fg.envAt(st, pkg, fg.localResolver(b, st))
+			env.loopEntry = fg.loopEntrySt[b.Index]
 			for _, inv := range invs {
 				t := env.tr(inv.E)
 				fg.curGroup = groupOf(inv.Tag)
@@ -362,6 +368,7 @@ func (fg *FG) invStep(p, h *ssa.BasicBlock, st *State, pkg *types.Package) {
 	}
 	for _, pth := range paths {
 		env := fg.envAt(pth.st, pkg, fg.localResolver(h, pth.st))
+		env.loopEntry = fg.loopEntrySt[h.Index]
 		for k, inv := range invs {
 			t := env.tr(inv.E)
 			fg.oblig("inv-step", fmt.Sprintf("inv-step:loop%d#%s@b%d%s", ord, clauseName(inv, k), p.Index, pth.sfx), inv.Tag, pth.cond, t.T, inv.Src, fmt.Sprintf("%s:%d", inv.File, inv.Line))
@@ -380,6 +387,8 @@ func (fg *FG) invStep(p, h *ssa.BasicBlock, st *State, pkg *types.Package) {
 		penv := fg.envAt(hst, pkg, fg.localResolver(h, hst))
 		senv := fg.envAt(st, pkg, fg.localResolverAt(p, h, st))
 		senv.prev = penv
+		senv.loopEntry = fg.loopEntrySt[h.Index]
+		penv.loopEntry = fg.loopEntrySt[h.Index]
 		for k, sc := range steps {
 			// a step clause may name variables of one arm of the loop body only: at back-edges where they
 			// do not resolve the clause does not apply (it must apply at one back-edge at least)
